@@ -148,6 +148,16 @@ def must_fail_oracle(cid, data, impl, model):
     return None
 
 
+def compare_batched(res, files, prefixes, oracle, what, batch=30000, verbose=False, outcome_only=False,
+                    load_only=False, spec_backed=None, profile="release"):
+    """run_both + compare_cases in batches (bounds the memory of the thorough tiers)"""
+    for start in range(0, len(files), batch):
+        part = files[start:start + batch]
+        m, i = run_both(part, profile, verbose=verbose, outcome_only=outcome_only)
+        compare_cases(res, part, m, i, prefixes, oracle, what=what, load_only=load_only, spec_backed=spec_backed)
+        del m, i
+
+
 def run_both(files, profile="release", verbose=False, outcome_only=False):
     lines = vlib.load_lines(files, verbose, outcome_only)
     m, _ = vlib.run_model(lines, profile)
@@ -1051,14 +1061,13 @@ def c13_run(ctx, scale):
             files.append((f"cut/{cid}@{k}", b[:k]))
         # the complete file and the file cut exactly at the end of the last frame do load
         files.append((f"whole/{cid}", b[:end]))
-    m, i = run_both(files, outcome_only=True)
     def orc(cid, data, impl, model):
         if cid.startswith("whole/"):
             return None if vlib.outcome(impl) == "ok" else "the untruncated file does not load: " + vlib.outcome_detail(impl)
         if vlib.outcome(impl) != "err":
             return "a truncated file did not fail to load: " + vlib.outcome_detail(impl)
         return None
-    compare_cases(res, files, m, i, [], orc, what="truncated prefix", load_only=True)
+    compare_batched(res, files, [], orc, what="truncated prefix", load_only=True, outcome_only=True, batch=100000)
     for cid, data in files:
         res._distinct.add(hash(cid))
     res.distribution["files"] = len(base)
@@ -1777,7 +1786,6 @@ def c09_run(ctx, scale):
         files.append((cid, mk_header(1, 1, 1) + mk_frame(chunks)))
         exp[cid] = ([None] + list(range(depth)), [i < hidden for i in range(n)])
     res.exhaustive = True
-    m, i = run_both(files, verbose=True)
     def orc(cid, data, impl, model):
         if vlib.outcome(impl) != "ok":
             return "a forest did not load: " + vlib.outcome_detail(impl)
@@ -1807,7 +1815,7 @@ def c09_run(ctx, scale):
                     if px[4 * k:4 * k + 4] != want:
                         return f"frame pixel {k} is {px[4 * k:4 * k + 4].hex()}, expected {want.hex()} (layer visible={visible[k]})"
         return None
-    compare_cases(res, files, m, i, ["layers", "layer", "frameimg"], orc, what="parents / visibility / frame image")
+    compare_batched(res, files, ["layers", "layer", "frameimg"], orc, what="parents / visibility / frame image", verbose=True)
     res.distribution["forests"] = len(files)
     res.distribution["max_layers"] = maxn
     gen = wf_routine(["layers", "layer", "frameimg"], [("forest", 150, 20000), ("render", 60, 2000)], "", corpus=False,
